@@ -363,10 +363,10 @@ pub fn exec(a: &Args) -> i32 {
             if let Err(e) = r {
                 return format!("err:{}", e.replace(' ', "_"));
             }
-            // S=straddle marks the transaction during which the memtable rotated (its record is in the old segment)
+            // S=straddle marks the transaction during which the memtable rotated: its first record is in the old
+            // segment (the batch is logged again in the new one: fix 3449869); images after it are judged like any other
             let mut s_mark = "";
             if base == "txn" && ROTATIONS.load(std::sync::atomic::Ordering::SeqCst) != rot_before {
-                straddled = true;
                 s_mark = " S=straddle";
             }
             let h = if untorn { " H=nothing-to-tear" } else if straddled { " H=straddle" } else { "" };
